@@ -11,6 +11,7 @@ import (
 	"io"
 	"net"
 	"sync"
+	"syscall"
 	"time"
 
 	jconfig "go.minekube.com/gate/pkg/edition/java/config"
@@ -253,6 +254,25 @@ func (b *Backend) Drain() []*Accepted {
 			return out
 		}
 	}
+}
+
+// ReserveClosedPort returns a loopback port on which connections are refused and which nobody
+// else can get meanwhile: a socket bound to it but not listening. release frees it.
+func ReserveClosedPort() (port int, release func(), err error) {
+	fd, err := syscall.Socket(syscall.AF_INET, syscall.SOCK_STREAM, 0)
+	if err != nil {
+		return 0, nil, err
+	}
+	if err = syscall.Bind(fd, &syscall.SockaddrInet4{Addr: [4]byte{127, 0, 0, 1}}); err != nil {
+		_ = syscall.Close(fd)
+		return 0, nil, err
+	}
+	sa, err := syscall.Getsockname(fd)
+	if err != nil {
+		_ = syscall.Close(fd)
+		return 0, nil, err
+	}
+	return sa.(*syscall.SockaddrInet4).Port, func() { _ = syscall.Close(fd) }, nil
 }
 
 // Close closes the listener.
